@@ -1,5 +1,7 @@
-(* C02: model of lowerToAddressMode / lowerAddendsToAmode / lowerAddendFromInstr
-   (internal/engine/wazevo/backend/isa/amd64/lower_mem.go), fixed (F01) and unfixed variants. *)
+(* C02: model of lowerToAddressMode / lowerAddendsToAmode / lowerAddend / lowerAddendFromInstr
+   (internal/engine/wazevo/backend/isa/amd64/lower_mem.go), fixed (F01) and unfixed variants, and the reading of
+   what the REAL function returned (addressing mode over virtual registers + the instructions it inserted), used
+   by the direct correspondence stream of checks/c02.py (harness/c02/amode.go + x_amode_export.go). *)
 From Coq Require Import ZArith Lia Bool List.
 Import ListNotations.
 Open Scope Z_scope.
@@ -9,28 +11,39 @@ Definition W32 := 4294967296.
 Definition w64 (z : Z) := z mod W64.
 Definition zext32 (z : Z) := z mod W32.                       (* value of uint32 as a number *)
 Definition sext32 (z : Z) := let u := z mod W32 in if u <? 2147483648 then u else u - W32.
+Definition s64 (u : Z) := if u <? 9223372036854775808 then u else u - W64.        (* int64(uint64) *)
+(* the low n bits of z read as a signed / unsigned number *)
+Definition sextn (n z : Z) := let u := z mod 2 ^ n in if u <? 2 ^ (n - 1) then u else u - 2 ^ n.
+Definition zextn (n z : Z) := z mod 2 ^ n.
 
-(* 32-bit inputs of an extend: a register (holding the zero-extended value) or a constant *)
+(* 32-bit inputs of an extend: a register (holding the value in its low 32 bits) or a constant (Iconst32) *)
 Inductive e32 := R32 (r : nat) | C32 (c : Z).
-(* 64-bit pointer expressions.  The bool is "MatchInstrOneOf succeeds" (single use, not lowered). *)
+(* 64-bit pointer expressions.  The bool is "MatchInstrOneOf succeeds" (single use, same instruction group). *)
 Inductive e64 :=
-| V64 (r : nat)                          (* not defined by a matchable instruction: lives in r *)
+| V64 (r : nat)                          (* not defined by an instruction (block parameter): lives in r *)
 | K64 (c : Z) (m : bool)                 (* Iconst64 *)
-| UX (x : e32) (m : bool)
-| SX (x : e32) (m : bool)
-| SHL (x : nat) (k : Z) (m : bool)       (* Ishl (reg x) (const k) *)
+| UX (x : e32) (m : bool)                (* UExtend 32 -> 64 *)
+| SX (x : e32) (m : bool)                (* SExtend 32 -> 64 *)
+| XN (sg : bool) (from : Z) (x : e32) (m : bool)  (* UExtend/SExtend from 8 or 16 bits of a 32-bit typed value to 64 *)
+| SXW (from : Z) (x : nat) (m : bool)    (* SExtend from 8/16/32 bits of a 64-bit typed register (i64.extendN_s) *)
+| SHL (x : e64) (k : Z) (m : bool)       (* Ishl x (Iconst k) *)
+| SHV (x y : e64) (m : bool)             (* Ishl x y, amount not a constant *)
 | ADD (a b : e64) (m : bool).
 
 Definition regs := nat -> Z.
 
 Definition ev32 (rg : regs) (e : e32) : Z := match e with R32 r => zext32 (rg r) | C32 c => zext32 c end.
+(* the SSA meaning *)
 Fixpoint ev (rg : regs) (e : e64) : Z :=
   match e with
   | V64 r => w64 (rg r)
   | K64 c _ => w64 c
   | UX x _ => ev32 rg x
   | SX x _ => w64 (sext32 (ev32 rg x))
-  | SHL x k _ => w64 (rg x * 2 ^ k)
+  | XN sg n x _ => w64 (if sg then sextn n (ev32 rg x) else zextn n (ev32 rg x))
+  | SXW n x _ => w64 (sextn n (rg x))
+  | SHL x k _ => w64 (ev rg x * 2 ^ (k mod 64))
+  | SHV x y _ => w64 (ev rg x * 2 ^ (ev rg y mod 64))
   | ADD a b _ => w64 (ev rg a + ev rg b)
   end.
 
@@ -42,19 +55,23 @@ Section Lowering.
 Variable fixed : bool.   (* true = with the F01 repair *)
 Variable rg : regs.
 
+(* lowerAddendFromInstr. A register operand comes from getOperand_Reg: the virtual register of the value (holding
+   its SSA meaning), or a fresh register loaded with the constant when the value is a constant instruction.
+   The code does not look at the `from` width of an extend (XN behaves as UX/SX) and uses a 32-bit input register
+   as it is, for UExtend and for SExtend alike. *)
 Definition lower_addend_from_instr (e : e64) : addend :=
   match e with
-  | K64 c _ => AOff (if c <? 9223372036854775808 then c else c - W64)   (* int64(u64) *)
-  | UX (C32 c) _ => AOff (if fixed then zext32 c else sext32 c)
-  | SX (C32 c) _ => AOff (if fixed then sext32 c else zext32 c)
-  | UX (R32 r) _ => AReg (w64 (rg r)) 0          (* the 32-bit register used as a 64-bit one *)
-  | SX (R32 r) _ => AReg (w64 (rg r)) 0
-  | SHL x k _ => if k <=? 3 then AReg (w64 (rg x)) k else AReg (w64 (rg x)) 0
-  | _ => AOff 0 (* unreachable: panics "BUG: invalid opcode" *)
+  | K64 c _ => AOff (s64 (w64 c))
+  | UX (C32 c) _ | XN false _ (C32 c) _ => AOff (if fixed then zext32 c else sext32 c)
+  | SX (C32 c) _ | XN true _ (C32 c) _ => AOff (if fixed then sext32 c else zext32 c)
+  | UX (R32 r) _ | SX (R32 r) _ | XN _ _ (R32 r) _ => AReg (w64 (rg r)) 0   (* the 32-bit register used as a 64-bit one *)
+  | SHL x k _ => if k <=? 3 then AReg (ev rg x) k else AReg (ev rg x) 0  (* amounts above 3: the shift is dropped *)
+  | SHV x _ _ => AReg (ev rg x) 0                                         (* variable amount: the shift is dropped *)
+  | _ => AOff 0 (* SXW: panics "BUG: invalid input type" (lower_panics); V64, ADD: never passed here *)
   end.
 
 Definition matchable_addend (e : e64) : bool :=
-  match e with K64 _ m | UX _ m | SX _ m | SHL _ _ m => m | _ => false end.
+  match e with K64 _ m | UX _ m | SX _ m | XN _ _ _ m | SXW _ _ m | SHL _ _ m | SHV _ _ m => m | V64 _ | ADD _ _ _ => false end.
 
 Definition lower_addend (e : e64) : addend :=
   if matchable_addend e then lower_addend_from_instr e else AReg (ev rg e) 0.
@@ -65,7 +82,10 @@ Definition eval_amode (a : amode) : Z := w64 (base a + index a * 2 ^ shift a + s
 
 Definition as_imm32_nosign (u : Z) : option Z := if (u <? 2147483648) then Some u else None.
 
-Definition lower_addends_to_amode (x y : addend) (offBase : Z) : amode :=
+(* al: both addends are shifted and sit in the SAME register. Two shifted registers cannot be absorbed: the code
+   shifts x's register IN PLACE (shl $sx, x.r — the register stays clobbered for every later use of that value) and
+   then reads y's register, which is the clobbered one when al holds. *)
+Definition lower_addends_to_amode (x y : addend) (offBase : Z) (al : bool) : amode :=
   let offx := match x with AOff o => o | _ => 0 end in
   let offy := match y with AOff o => o | _ => 0 end in
   let u64 := w64 (w64 (offx + offy) + offBase) in
@@ -77,13 +97,14 @@ Definition lower_addends_to_amode (x y : addend) (offBase : Z) : amode :=
     | None => match x, y with
               | AOff _, _ => (AReg u64 0, y, 0)
               | _, AOff _ => (x, AReg u64 0, 0)
-              | _, _ => (x, y, 0) (* panic BUG *)
+              | _, _ => (x, y, 0) (* panic BUG: unreachable, two registers have offset 0 and offBase < 2^31 *)
               end
     end in
   let u32 := u mod W32 in
   match x, y with
   | AReg vx sx, AReg vy sy =>
-      if (negb (sx =? 0)) && (negb (sy =? 0)) then {| disp := u32; base := w64 (vx * 2 ^ sx); index := vy; shift := sy |}
+      if (negb (sx =? 0)) && (negb (sy =? 0)) then
+        {| disp := u32; base := w64 (vx * 2 ^ sx); index := (if al then w64 (vy * 2 ^ sx) else vy); shift := sy |}
       else if (negb (sx =? 0)) then {| disp := u32; base := vy; index := vx; shift := sx |}
       else {| disp := u32; base := vx; index := vy; shift := sy |}
   | AReg vx sx, AOff _ | AOff _, AReg vx sx =>
@@ -92,14 +113,21 @@ Definition lower_addends_to_amode (x y : addend) (offBase : Z) : amode :=
   | AOff _, AOff _ => {| disp := 0; base := u64; index := 0; shift := 0 |}
   end.
 
+(* the register a shifted addend lives in, when it is a block parameter's (other values have registers of their own) *)
+Definition shifted_leaf (e : e64) : option nat :=
+  match e with SHL (V64 r) k true => if (1 <=? k) && (k <=? 3) then Some r else None | _ => None end.
+Definition alias (a b : e64) : bool :=
+  match shifted_leaf a, shifted_leaf b with Some r, Some r' => Nat.eqb r r' | _, _ => false end.
+
 Definition lower_to_amode (e : e64) (offBase : Z) : amode :=
   if 2147483648 <=? offBase then
+    (* static offset with the top bit set: offset (plus a constant addend) materialised in a register *)
     match lower_addend e with
     | AReg v s => {| disp := 0; base := w64 (0 + offBase); index := v; shift := s |}
     | AOff o => {| disp := 0; base := w64 (o + offBase); index := 0; shift := 0 |}
     end
   else match e with
-  | ADD a b true => lower_addends_to_amode (lower_addend a) (lower_addend b) offBase
+  | ADD a b true => lower_addends_to_amode (lower_addend a) (lower_addend b) offBase (alias a b)
   | _ => match lower_addend e with
          | AReg v s => if negb (s =? 0) then {| disp := offBase; base := 0; index := v; shift := s |}
                        else {| disp := offBase; base := v; index := 0; shift := 0 |}
@@ -108,18 +136,129 @@ Definition lower_to_amode (e : e64) (offBase : Z) : amode :=
   end.
 End Lowering.
 
-(* What the frontend produces: no SExtend addend, shifts at most 3, registers of 32-bit values are
-   zero-extended. *)
-Fixpoint frontend_shape (e : e64) : bool :=
+(* Go panics of the real function ("BUG: invalid input type i64": a sign extension of a 64-bit typed value
+   matched as an addend) *)
+Definition addend_panics (e : e64) : bool := match e with SXW _ _ true => true | _ => false end.
+Definition lower_panics (e : e64) (offBase : Z) : bool :=
+  if 2147483648 <=? offBase then addend_panics e
+  else match e with ADD a b true => addend_panics a || addend_panics b | _ => addend_panics e end.
+
+(* ---- the class on which the lowering is right ----
+   Only the nodes that the code pattern-matches are constrained (the pointer itself and, under a single-use Iadd
+   and an offset below 2^31, its two operands); everything below them is a value sitting in its register.
+   A matched addend must not be: a sign extension of a register, a narrow extension, a sign extension of a 64-bit
+   value, a shift by a constant above 3 or by a variable amount (SHV: the amount is not a constant instruction);
+   and the two operands must not be shifts of one and the same register. *)
+Definition addend_ok (e : e64) : bool :=
   match e with
-  | SX _ _ => false
-  | SHL _ k _ => (0 <=? k) && (k <=? 3)
-  | ADD a b _ => frontend_shape a && frontend_shape b
+  | SX (R32 _) true => false
+  | XN _ _ _ true => false
+  | SXW _ _ true => false
+  | SHL _ k true => (0 <=? k) && (k <=? 3)
+  | SHV _ _ true => false
   | _ => true
   end.
-Fixpoint zext_ok (rg : regs) (e : e64) : Prop :=
+Definition lowerable (off : Z) (e : e64) : bool :=
+  if 2147483648 <=? off then addend_ok e
+  else match e with ADD a b true => addend_ok a && addend_ok b && negb (alias a b) | _ => addend_ok e end.
+(* a matched zero extension of a register needs the register's upper half to be clear (every 32-bit amd64
+   instruction leaves it so) *)
+Definition addend_zext (rg : regs) (e : e64) : Prop :=
+  match e with UX (R32 r) true => 0 <= rg r < W32 | _ => True end.
+Definition zext_ok (rg : regs) (off : Z) (e : e64) : Prop :=
+  if 2147483648 <=? off then addend_zext rg e
+  else match e with ADD a b true => addend_zext rg a /\ addend_zext rg b | _ => addend_zext rg e end.
+
+(* What the frontend produces for memory and table accesses: no SExtend / narrow / 64-bit-input extension and no
+   variable shift anywhere, constant shifts of at most 3 (it scales by 4 and 8 only), never a sum of two shifts
+   (only the index of a table access is scaled). *)
+Fixpoint frontend_shape (e : e64) : bool :=
+  match e with
+  | SX _ _ | XN _ _ _ _ | SXW _ _ _ | SHV _ _ _ => false
+  | SHL x k _ => (0 <=? k) && (k <=? 3) && frontend_shape x
+  | ADD a b _ => frontend_shape a && frontend_shape b && negb (alias a b)
+  | _ => true
+  end.
+Fixpoint zext_all (rg : regs) (e : e64) : Prop :=
   match e with
   | UX (R32 r) _ => 0 <= rg r < W32
-  | ADD a b _ => zext_ok rg a /\ zext_ok rg b
+  | ADD a b _ => zext_all rg a /\ zext_all rg b
   | _ => True
+  end.
+
+(* ---- reading of the real result (correspondence cases) ---- *)
+Inductive rsrc := SLeaf (r : nat) | SVal (e : e64) | SConst (c : Z).
+Inductive rinstr := IImm (dst c : Z) (is64 : bool) | IZero (dst : Z) | IShl (dst k : Z) | IOther.
+Record real := { r_panic : bool; r_kind : Z; r_imm : Z; r_base : Z; r_index : Z; r_shift : Z;
+                 r_ins : list rinstr; r_map : list (Z * rsrc) }.
+
+Definition regfile := list (Z * Z).
+Fixpoint rf_get (f : regfile) (id : Z) : option Z :=
+  match f with [] => None | (i, v) :: r => if i =? id then Some v else rf_get r id end.
+Definition rf_init (rg : regs) (m : list (Z * rsrc)) : regfile :=
+  map (fun p => (fst p, match snd p with SLeaf r => w64 (rg r) | SVal e => ev rg e | SConst c => w64 c end)) m.
+Fixpoint rf_exec (f : regfile) (ins : list rinstr) : option regfile :=
+  match ins with
+  | [] => Some f
+  | IImm d c is64 :: r => rf_exec ((d, if is64 then w64 c else zext32 c) :: f) r
+  | IZero d :: r => rf_exec ((d, 0) :: f) r
+  | IShl d k :: r => match rf_get f d with Some v => rf_exec ((d, w64 (v * 2 ^ k)) :: f) r | None => None end
+  | IOther :: _ => None
+  end.
+(* the addressing mode the real code built, by the values of its parts under rg; None: it refers to a register
+   nobody defined or inserted an instruction this reading does not know *)
+Definition real_amode (rg : regs) (r : real) : option amode :=
+  match rf_exec (rf_init rg (r_map r)) (r_ins r) with
+  | None => None
+  | Some f =>
+      match rf_get f (r_base r) with
+      | None => None
+      | Some b =>
+          if r_kind r =? 3 then
+            match rf_get f (r_index r) with
+            | Some i => Some {| disp := r_imm r; base := b; index := i; shift := r_shift r |}
+            | None => None
+            end
+          else if r_kind r =? 1 then Some {| disp := r_imm r; base := b; index := 0; shift := 0 |}
+          else None
+      end
+  end.
+
+Definition amode_eqb (a b : amode) : bool :=
+  (disp a =? disp b) && (base a =? base b) && (index a =? index b) && (shift a =? shift b).
+
+Definition addend_zextb (rg : regs) (e : e64) : bool :=
+  match e with UX (R32 r) true => (0 <=? rg r) && (rg r <? W32) | _ => true end.
+Definition zext_okb (rg : regs) (off : Z) (e : e64) : bool :=
+  if 2147483648 <=? off then addend_zextb rg e
+  else match e with ADD a b true => addend_zextb rg a && addend_zextb rg b | _ => addend_zextb rg e end.
+
+Record acase := { ac_e : e64; ac_off : Z; ac_vals : list (list Z); ac_real : real }.
+Definition rg_of (l : list Z) : regs := fun n => nth n l 0.
+
+(* 0 = agreement. 1: the real code panicked where the model does not (or the reverse); 2: the real addressing mode
+   cannot be read; 3: its parts differ from the model's under some valuation; 4: inside the class of the theorem
+   the model's address is not value + offset (would contradict C02_amode_correct) *)
+Definition check_acase (c : acase) : Z :=
+  let e := ac_e c in let off := ac_off c in let r := ac_real c in
+  if negb (Bool.eqb (r_panic r) (lower_panics e off)) then 1
+  else if r_panic r then 0
+  else
+    fold_left (fun acc l =>
+      if negb (acc =? 0) then acc else
+      let rg := rg_of l in
+      let m := lower_to_amode true rg e off in
+      match real_amode rg r with
+      | None => 2
+      | Some a =>
+          if negb (amode_eqb a m) then 3
+          else if lowerable off e && zext_okb rg off e && negb (eval_amode m =? w64 (ev rg e + off)) then 4
+          else 0
+      end) (ac_vals c) 0.
+
+Fixpoint amismatches (i : Z) (cs : list acase) : list (Z * Z) :=
+  match cs with
+  | [] => []
+  | c :: r => let k := check_acase c in
+              (if k =? 0 then [] else [(i, k)]) ++ amismatches (i + 1) r
   end.
